@@ -29,8 +29,11 @@ Axes3 == {<<"0", "2", "4">>, <<"0", "1", "4">>, <<"0", "2", "2">>, <<"0", "NaN",
 Axes4 == Axes3 \cup {<<"0", "1", "4", "6">>}
 AxesSmall == {<<"0", "2", "4">>, <<"0", "2", "2">>, <<"0", "NaN", "4">>, <<"0", "2">>}     \* for the deepest configuration
 Axes == Axes3
-Datas1 == {<<"1", "5", "3">>}
-Datas3 == {<<"1", "5", "3">>, <<"1", "5", "1">>, <<"1", "5", "3", "1">>}          \* the last two have equal ends (periodic data)
+\* a data set is a sequence of LANES (the trailing data axis); each lane holds one value per axis point
+Datas1 == {<< <<"1", "5", "3">> >>}
+Datas3 == {<< <<"1", "5", "3">> >>, << <<"1", "5", "1">> >>, << <<"1", "5", "3", "1">> >>,      \* the last two: equal ends (periodic data)
+           << <<"1", "5", "3">>, <<"2", "2", "0">> >>, << <<"1", "5", "1">>, <<"0", "4", "0">> >>}   \* two lanes (the second: periodic in both)
+DatasLin == {<< <<"1", "5", "3">> >>, << <<"1", "5", "3">>, <<"2", "2", "0">> >>}       \* one lane, two lanes
 Datas == Datas1
 StratsLinear == {[k |-> "Linear", ex |-> 0], [k |-> "Linear", ex |-> 1]}
 StratsSpline == {[k |-> "Spline", ex |-> e, bc |-> b] : e \in {0, 1}, b \in {"Natural", "NotAKnot", "Periodic"}}
@@ -52,8 +55,13 @@ QLists2 == {<< <<a, b>> >> : a \in {"-1", "0", "1", "4", "5", "NaN"}, b \in {"-1
 Cfg2(x, yy, st) == [rank |-> 2, nx |-> Len(Grid), ny |-> Len(Grid[1]), x |-> x, y |-> yy, z |-> Grid, st |-> st,
                     dshape |-> <<Len(Grid), Len(Grid[1])>>]
 
-\* the inputs of build(): axis, one lane of data (decimal payloads, hence el = "i32" for the decoder), strategy
-Cfg(x, y, st) == [rank |-> 1, n |-> Len(y), x |-> x, y |-> y, st |-> st, dshape |-> <<Len(y)>>, el |-> "i32", dv |-> y]
+\* the inputs of build(): axis, the lanes of the data (decimal payloads, hence el = "i32" for the decoder), strategy;
+\* dv: the data in row-major order (knot index first, lane second), as the contract operators expect it
+NLanes(o) == Len(o.cfg.y)
+Cfg(x, ys, st) ==
+    LET n == Len(ys[1]) L == Len(ys) IN
+    [rank |-> 1, n |-> n, x |-> x, y |-> ys, st |-> st, dshape |-> IF L = 1 THEN <<n>> ELSE <<n, L>>, el |-> "i32",
+     dv |-> [k \in 1..(n * L) |-> ys[((k - 1) % L) + 1][((k - 1) \div L) + 1]]]
 
 VARIABLES objs, pend, hist, hint, ncalls
 vars == <<objs, pend, hist, hint, ncalls>>
@@ -73,7 +81,8 @@ Build(i, x, y, st) ==
        objs' = [objs EXCEPT ![i] =
                   IF Valid1(cfg)
                   THEN [phase |-> "interp", cfg |-> cfg,
-                        sp |-> IF st.k = "Spline" THEN SplineOf(x, y, LaneBc(st, "i32", 1)) ELSE [none |-> TRUE]]
+                        sp |-> IF st.k = "Spline" THEN [j \in 1..Len(y) |-> SplineOf(x, y[j], LaneBc(st, "i32", j))]
+                               ELSE [none |-> TRUE]]
                   ELSE [phase |-> "failed", kinds |-> ViolatedKinds1(cfg)]]
     /\ UNCHANGED <<pend, hist, hint, ncalls>>
 
@@ -94,13 +103,15 @@ InRangeSeen(i, cfg, q) ==
 
 \* the value at a finite query: the line through the bracketing points (C01; the end line outside, C06), or the
 \* cubic of the bracketing interval (C02; the end cubic outside, C06; wrapped by whole periods if periodic, C07)
-ValueAt(o, q) ==
+\* lane j of the answer to query element q (C08: a lane is computed from its own data only)
+ValueAt(o, q, j) ==
     LET cfg == o.cfg IN
     IF cfg.rank = 2 THEN Bil(cfg.x, cfg.y, cfg.z, q[1], q[2])        \* C04 (the end cell outside, C06)
-    ELSE IF cfg.st.k = "Linear" THEN Lin(cfg.x, cfg.y, q)
+    ELSE IF cfg.st.k = "Linear" THEN Lin(cfg.x, cfg.y[j], q)
     ELSE LET wrap == cfg.st.bc = "Periodic" /\ ~InRange(cfg.x, q)
              qq == IF wrap THEN Wrap(cfg.x, q) ELSE q
-         IN  SplineAt(o.sp, cfg.x, Bracket(cfg.x, qq), qq)
+         IN  SplineAt(o.sp[j], cfg.x, Bracket(cfg.x, qq), qq)
+LanesOf(o) == IF o.cfg.rank = 2 THEN 1 ELSE NLanes(o)
 
 \* buf: "none" (allocating entry point), "ok" (correctly shaped caller buffer), "bad" (wrong shape: documented panic)
 ReplyOf(i, o, qs, buf) ==
@@ -110,7 +121,8 @@ ReplyOf(i, o, qs, buf) ==
         ok(q) == IF ex THEN FinQ(cfg, q) ELSE IF cfg.rank = 1 THEN InRangeSeen(i, cfg, q) ELSE InQ(cfg, q)
     IN  IF \A k \in 1..Len(qs) : ok(qs[k])
         THEN [out |-> "Ok", shape |-> OutShape(<<Len(qs)>>, cfg.dshape, cfg.rank),
-              vals |-> [k \in 1..Len(qs) |-> ValueAt(o, qs[k])]]
+              vals |-> LET L == LanesOf(o) IN      \* row-major: query index first, lane second (C09)
+                       [k \in 1..(Len(qs) * L) |-> ValueAt(o, qs[((k - 1) \div L) + 1], ((k - 1) % L) + 1)]]
         ELSE IF \E k \in 1..Len(qs) : ~FinQ(cfg, qs[k]) /\ ex THEN [out |-> "Unspecified", shape |-> <<>>, vals |-> <<>>]
         ELSE [out |-> "Err:OutOfBounds", shape |-> <<>>, vals |-> <<>>]
 
@@ -155,7 +167,9 @@ SameQuestionSameAnswer ==
 BadBufferNeverOk == \A h \in hist : h[4] = "bad" => h[3].out # "Ok"
 ElementsAgree ==
     \A a, b \in hist : a[1] = b[1] /\ a[3].out = "Ok" /\ b[3].out = "Ok" =>
-        \A i \in 1..Len(a[2]), j \in 1..Len(b[2]) : a[2][i] = b[2][j] => a[3].vals[i] = b[3].vals[j]
+        LET L == LanesOf(objs[a[1]]) IN
+        \A i \in 1..Len(a[2]), j \in 1..Len(b[2]), l \in 1..L :
+            a[2][i] = b[2][j] => a[3].vals[(i - 1) * L + l] = b[3].vals[(j - 1) * L + l]
 \* C05: without extrapolation a query is answered iff every element lies in the closed range
 AnsweredIffInRange ==
     \A h \in hist : LET cfg == objs[h[1]].cfg IN
@@ -169,7 +183,9 @@ KnotsReproduced ==
     \A h \in hist : h[3].out = "Ok" =>
         LET cfg == objs[h[1]].cfg IN
         IF cfg.rank = 1
-        THEN \A k \in 1..Len(h[2]), m \in 1..cfg.n : h[2][k] = cfg.x[m] => h[3].vals[k] = cfg.y[m]
+        THEN LET L == Len(cfg.y) IN
+             \A k \in 1..Len(h[2]), m \in 1..cfg.n, l \in 1..L :
+                h[2][k] = cfg.x[m] => h[3].vals[(k - 1) * L + l] = cfg.y[l][m]
         ELSE \A k \in 1..Len(h[2]), a \in 1..cfg.nx, b \in 1..cfg.ny :
                 h[2][k] = <<cfg.x[a], cfg.y[b]>> => h[3].vals[k] = cfg.z[a][b]
 \* C07: a periodic spline with extrapolation is a periodic function: queries a whole number of periods apart agree
@@ -178,12 +194,24 @@ PeriodicFunction ==
         LET cfg == objs[a[1]].cfg
             P == QSub(cfg.x[cfg.n], cfg.x[1])
         IN  cfg.rank = 1 /\ cfg.st.k = "Spline" /\ cfg.st.bc = "Periodic" /\ cfg.st.ex = 1 =>
-            \A i \in 1..Len(a[2]), j \in 1..Len(b[2]) :
+            LET L == Len(cfg.y) IN
+            \A i \in 1..Len(a[2]), j \in 1..Len(b[2]), l \in 1..L :
                 LET d == QSub(a[2][i], b[2][j]) IN
-                QMul(QFloor(QDiv(d, P)), P) = d => a[3].vals[i] = b[3].vals[j]
+                QMul(QFloor(QDiv(d, P)), P) = d => a[3].vals[(i - 1) * L + l] = b[3].vals[(j - 1) * L + l]
 \* every call terminates: no call waits for another call, a lock or a cache (bound to the code by the per-call
 \* watchdog of the harness: a call that does not return within 30 s is reported as a violation)
 EveryCallReturns == \A t \in Threads : pend[t].busy ~> ~pend[t].busy
 \* C09: result shape = query shape ++ trailing data dims
-ShapeOk == \A h \in hist : h[3].out = "Ok" => h[3].shape = <<Len(h[2])>>       \* one lane: no trailing axes
+ShapeOk == \A h \in hist : h[3].out = "Ok" =>
+              LET o == objs[h[1]] IN
+              /\ h[3].shape = <<Len(h[2])>> \o (IF o.cfg.rank = 1 /\ NLanes(o) > 1 THEN <<NLanes(o)>> ELSE <<>>)
+              /\ Len(h[3].vals) = Len(h[2]) * LanesOf(o)
+\* C08: lane l of a multi-lane interpolator answers like a single-lane interpolator over that lane alone
+LaneAlone ==
+    \A h \in hist : h[3].out = "Ok" /\ objs[h[1]].cfg.rank = 1 =>
+        LET o == objs[h[1]] cfg == o.cfg L == Len(cfg.y) IN
+        L > 1 => \A l \in 1..L :
+            LET solo == [cfg |-> Cfg(cfg.x, <<cfg.y[l]>>, cfg.st),
+                         sp |-> IF cfg.st.k = "Spline" THEN <<SplineOf(cfg.x, cfg.y[l], LaneBc(cfg.st, "i32", 1))>> ELSE [none |-> TRUE]]
+            IN  \A k \in 1..Len(h[2]) : h[3].vals[(k - 1) * L + l] = ValueAt(solo, h[2][k], 1)
 =============================================================================
